@@ -40,6 +40,14 @@ ASSUMPTIONS = [
     'no Spec line names a spec outside the failing path, its completed chain steps, its attempted branches or the innermost spec\'s '
     'own subtree; the message ends with the original error; same structure and no over-long line at widths 50..200',
     'messages contain no newlines; truncated values must be a prefix of the full repr followed by "..." / "... (len=N)"',
+    'branch markers (all sub-checks): a branch opens one level below the line above it (or right below the line that closed its '
+    'elder sibling) with a backslash in its own column, X stands only on the last line of the branch whose column it is in, a branch '
+    'followed by another one is closed by X; a closed branch of ONE line has a single column for both marks and shows X (accepted, '
+    'counted as one-line-closed-branch)',
+    'lazy / enclosed: failures that are raised eagerly (First key, an item pulled by windowed() inside the Iter step) and chains whose '
+    'lazily raised failure was recovered from are compared with the exact list of Spec lines and must not be drawn as branching '
+    'specs; an Iter in whose own evaluation an item completed before the failing one (windowed(3), second item) is drawn by glom with '
+    'the failing item as a single branch: the mark of the Iter itself is not asserted in that case',
 ]
 ADDR = re.compile(r' at 0x[0-9a-f]+')
 
@@ -341,33 +349,73 @@ def shown_matches(shown, full):
     return False
 
 
-LINE = re.compile(r'^ (\|*)([-+\\X|]) (Target|Spec): (.*)$', re.S)
+MARKS = re.compile(r'^ ([|\\X+-]+) ')
 
 
 def parse_line(line):
-    """(depth, tick, label, value) for Target/Spec lines, (depth, tick, 'error', text) otherwise; None if not a trace line"""
-    if not line.startswith(' '):
+    """(depth, tick, label, value) for Target/Spec lines, (depth, tick, 'error', text) otherwise; None if not a trace line.
+    A line at branch depth d carries d + 1 marker characters: one column per enclosing branch level, its own mark last"""
+    m = MARKS.match(line)
+    if m is None:
         return None
-    s = line[1:]
-    j = 0
-    while j < len(s) and s[j] == '|':
-        j += 1
-    if j >= len(s):
-        return None
-    c = s[j]
-    if c in '\\X+-':
-        depth, tick, rest = j, c, s[j + 1:]
-    elif c == ' ' and j >= 1:
-        depth, tick, rest = j - 1, '|', s[j:]
-    else:
-        return None
-    if not rest.startswith(' '):
-        return None
-    rest = rest[1:]
+    marks, rest = m.group(1), line[m.end():]
+    depth, tick = len(marks) - 1, marks[-1]
     for label in ('Target', 'Spec'):
         if rest.startswith(label + ': '):
             return (depth, tick, label, rest[len(label) + 2:])
     return (depth, tick, 'error', rest)
+
+
+def check_markers(lines, where, show):
+    """the branch markers are well-formed (docs/debugging.rst, "Reading Branched Exceptions": '+' starts a branching spec, each
+    level of branch adds a '|' on the left, a backslash opens a new branch, 'X' marks the line on which a failed branch ends):
+    every branch opens one level below the line above it (or right after the line that closed its elder sibling) with a
+    backslash in its own column; 'X' stands only on the LAST line of the branch whose column it is in; a branch that is
+    followed by another one is closed by 'X'.  A closed branch of a single line has one column for both marks: it shows
+    'X' (its position - deeper than the line above, or directly below a closing 'X' of its depth - still says that it
+    opens a branch).  Returns the number of such one-line branches."""
+    rows = []
+    for ln in lines:
+        m = MARKS.match(ln)
+        if m is None:
+            break
+        rows.append(m.group(1))
+
+    def bad(i, why):
+        raise Mismatch('branch-markers', '%s: trace line %d %r: %s:\n%s' % (where, i + 1, lines[i][:50], why, show))
+    prev = None
+    one_line = 0
+    for i, m in enumerate(rows):
+        d = len(m) - 1
+        nxt = rows[i + 1] if i + 1 < len(rows) else None
+        if d == 0:
+            if m not in '-+':
+                bad(i, "a line outside every branch is marked '-' (or '+' for a branching spec)")
+        elif m[0] != '|' or any(c not in '|X' for c in m[1:d]) or m[d] not in '|+\\X':
+            bad(i, "the columns of the enclosing levels hold '|' (or 'X' where that level's branch ends), the line's own column one of | + \\ X")
+        pd = len(prev) - 1 if prev is not None else -1
+        if prev is None and d != 0:
+            bad(i, 'the trace starts inside a branch')
+        opens = d >= 1 and (d > pd or prev[d] == 'X')
+        if opens:
+            if d > pd + 1:
+                bad(i, 'a deeper line starts a new branch exactly one level deeper')
+            if d > pd and prev[-1] not in '+\\':
+                bad(i, 'a branch opens below a line that does not start a branching spec')
+            if m[d] == 'X':
+                one_line += 1
+            elif m[d] != '\\':
+                bad(i, "the first line of a branch carries a backslash in the branch's own column")
+        for k in range(1, d + 1):
+            if m[k] == 'X' and nxt is not None and not (len(nxt) - 1 < k or (len(nxt) - 1 == k and nxt[k] in '\\X')):
+                bad(i, "'X' in column %d marks the end of the branch at depth %d, but that branch goes on below" % (k + 1, k))
+        if nxt is not None and nxt[-1] == '\\' and 1 <= len(nxt) - 1 <= d and m[len(nxt) - 1] != 'X':
+            bad(i, "the branch at depth %d is abandoned here (another branch follows) but is not closed by 'X' on this, its last line"
+                % (len(nxt) - 1))
+        if m[d] == '+' and nxt is not None and len(nxt) - 1 != d + 1:
+            bad(i, "'+' starts a branching spec but no branch follows")
+        prev = m
+    return one_line
 
 
 def exc_line(e):
@@ -399,6 +447,7 @@ def check_trace(err, root, target, where):
         parsed.append(p)
     tail = lines[2 + len(parsed):]
     show = '\n'.join(lines)
+    check_markers(lines[2:], where, show)
     # P2 first entry is the root target
     if not parsed or parsed[0][2] != 'Target' or parsed[0][0] != 0 or not shown_matches(parsed[0][3], fmtval(target, 0)):
         raise Mismatch('root-target', '%s: first trace entry is not the root target:\n%s' % (where, show))
@@ -692,6 +741,11 @@ def check(recipe, ctx):
 # ---------------------------------------------------------------------------
 # lazily evaluated sub-specs: Iter(sub) consumed by a LATER step of the chain.  The failing sub-spec is evaluated
 # while the consumer runs, in a scope that hangs off the (already finished) Iter step.
+# Classes: the sub-spec fails while the consumer runs (mode lazy); every item passes and a step after the consumer fails
+# (after); the sub-spec fails, the consuming step recovers and a later step fails (recovered: a linear chain, the swallowed
+# failure has no part in it); Iter(sub).windowed(n) / .map(sub).windowed(n), which pulls n - 1 items inside the Iter step
+# (the failure is then raised eagerly: every level once, nothing branches); a branching sub-spec all of whose
+# alternatives fail (the lazily failing branch of the Iter then ENDS in a nested branch: position of the closing X).
 
 class OkStep(object):
     """a chain step with a unique, address-free repr that passes its target on"""
@@ -715,55 +769,228 @@ class Consumer(OkStep):
         return 'consume%d' % self.n
 
 
+GLOM_KINDS = ['path', 'tstep', 'glomerror']        # failures that are GlomErrors (Coalesce / Or / Not recover from them)
+
+
+def gen_subshape(draw):
+    """the sub-spec of the Iter / the key of First: one failing spec, or a branching spec all of whose alternatives fail
+    (the lazily raised error then ends a branch whose last lines belong to a NESTED branch)"""
+    S_ = st.sampled_from
+    if draw(S_([0, 1])):
+        return ['coalesce', [draw(S_(GLOM_KINDS)) for _ in range(draw(S_([1, 1, 2])))]]
+    return ['plain']
+
+
 def gen_lazy(draw):
     S_ = st.sampled_from
-    return {'pre': draw(S_([0, 0, 1, 2, 3])), 'mid': draw(S_([0, 0, 1, 2, 3])), 'post': draw(S_([0, 1])),
-            'fail': draw(S_(['path', 'tstep', 'glomerror', 'valueerror'])), 'failat': draw(S_([0, 0, 1])),
-            'how': draw(S_(['iter', 'iter', 'map', 'filter'])), 'chain': draw(S_(['tuple', 'tuple', 'pipe'])),
-            'wrap': draw(S_(['none', 'none', 'spec', 'auto', 'coalesce', 'dict', 'nested-chain'])),
-            # 'after': every item passes; a step AFTER the consumer fails (the chain must have continued from the consumer)
-            'mode': draw(S_(['lazy', 'lazy', 'after']))}
+    # 'after': every item passes; a step AFTER the consumer fails (the chain must have continued from the consumer)
+    # 'recovered': the sub-spec fails while the consumer runs, the consuming step RECOVERS (Or / Coalesce / Not around the
+    #              consumer), a later step fails: the swallowed failure has no part in that error
+    mode = draw(S_(['lazy', 'lazy', 'lazy', 'after', 'after', 'recovered', 'recovered']))
+    r = {'pre': draw(S_([0, 0, 1, 2, 3])), 'mid': draw(S_([0, 0, 1, 2, 3])), 'post': draw(S_([0, 1])),
+         'fail': draw(S_(['path', 'tstep', 'glomerror', 'valueerror'])), 'failat': draw(S_([0, 0, 1])),
+         # '-windowed': windowed(n) pulls its first n - 1 items INSIDE the Iter's own evaluation: a failure on one of them is
+         # raised eagerly, by the Iter step itself
+         'how': draw(S_(['iter', 'iter', 'map', 'filter'] + ([] if mode == 'recovered' else ['iter-windowed', 'iter-windowed', 'map-windowed']))),
+         'chain': draw(S_(['tuple', 'tuple', 'pipe'])),
+         'wrap': draw(S_(['none', 'none', 'spec', 'auto', 'coalesce', 'dict', 'nested-chain'])),
+         'mode': mode, 'sub': gen_subshape(draw)}
+    if r['how'].endswith('windowed'):
+        r['win'] = draw(S_([2, 2, 3]))
+    if mode == 'recovered':
+        r['rec'] = 'coalesce-skipexc' if r['fail'] == 'valueerror' else draw(S_(['or', 'coalesce-default', 'coalesce-alt', 'and-not']))
+    return r
 
 
 class FailAt(object):
     """sub-spec of the Iter: passes the items before position `at`, fails (in the planted way) on that one"""
-    def __init__(self, kind, at):
-        self.kind, self.at = kind, at
+    def __init__(self, kind, at, tag=''):
+        self.kind, self.at, self.tag = kind, at, tag
         self.__name__ = 'failat'
+        self.raised = None
+
+    def inner(self):
+        """the spec this one evaluates as a child of its own on the failing item, if any"""
+        if self.kind == 'path':
+            return 'missing_lazy' + self.tag
+        if self.kind == 'tstep':
+            return T['nope_lazy' + self.tag]
+        return None
 
     def glomit(self, target, scope):
         if self.at < 0 or not target.name.endswith('_' + 'ab'[self.at]):
             return target
-        if self.kind == 'path':
-            return scope[glom.glom](target, 'missing_lazy', scope)
-        if self.kind == 'tstep':
-            return scope[glom.glom](target, T['nope_lazy'], scope)
-        if self.kind == 'glomerror':
-            raise GlomError('lazy refuses')
-        raise ValueError('lazy fails')
+        try:
+            if self.inner() is not None:
+                return scope[glom.glom](target, self.inner(), scope)
+            if self.kind == 'glomerror':
+                raise GlomError('lazy refuses' + self.tag)
+            raise ValueError('lazy fails' + self.tag)
+        except Exception as e:
+            self.raised = e
+            raise
 
     def __repr__(self):
-        return 'FailAt(%r, %d)' % (self.kind, self.at)
+        return 'FailAt(%r, %d%s)' % (self.kind, self.at, ', %r' % self.tag if self.tag else '')
+
+
+def build_sub(r, at):
+    """(sub-spec, its failing alternatives or None)"""
+    shape = r.get('sub') or ['plain']
+    if shape[0] == 'plain':
+        return FailAt(r['fail'], at), None
+    alts = [FailAt(k, at, '_' + 'xyz'[i]) for i, k in enumerate(list(shape[1]) + [r['fail']])]
+    return Coalesce(*alts), alts
+
+
+def inner_specs(sub, alts):
+    """the levels from the sub-spec down, in evaluation order, on the item that fails"""
+    out = [sub]
+    for a in (alts if alts is not None else [sub]):
+        if alts is not None:
+            out.append(a)
+        if a.inner() is not None:
+            out.append(a.inner())
+    return out
+
+
+def sub_error_is_glomerror(r):
+    """the error that leaves the sub-spec is a GlomError (a CoalesceError when every alternative of a branching sub-spec
+    failed with GlomErrors; the last alternative's ValueError passes through Coalesce)"""
+    return r['fail'] != 'valueerror'
+
+
+RESCUED = Named('rescued')
+
+
+class Lazy(object):
+    pass
 
 
 def build_lazy(r):
-    after = r.get('mode') == 'after'
-    sub = FailAt(r['fail'], -1 if after else r['failat'])
-    it = {'iter': lambda: Iter(sub), 'map': lambda: Iter().map(sub), 'filter': lambda: Iter().filter(sub)}[r['how']]()
-    steps = [OkStep(i) for i in range(r['pre'])] + [Probe(77, 'list'), it] + [OkStep(10 + i) for i in range(r['mid'])] + \
-        [Consumer(20)] + [OkStep(30 + i) for i in range(r['post'])]
-    if after:
+    b = Lazy()
+    mode = r.get('mode', 'lazy')
+    b.sub, b.alts = build_sub(r, -1 if mode == 'after' else r['failat'])
+    sub, how, n = b.sub, r['how'], r.get('win', 2)
+    b.it = {'iter': lambda: Iter(sub), 'map': lambda: Iter().map(sub), 'filter': lambda: Iter().filter(sub),
+            'iter-windowed': lambda: Iter(sub).windowed(n), 'map-windowed': lambda: Iter().map(sub).windowed(n)}[how]()
+    # a failure on one of the first n - 1 items is raised while the Iter step itself is evaluated
+    b.eager = mode == 'lazy' and how.endswith('windowed') and r['failat'] < n - 1
+    b.cons = Consumer(20)
+    b.consuming = b.cons
+    if mode == 'recovered':
+        c = b.cons
+        b.consuming = {'or': lambda: Or(c, Val(RESCUED)), 'coalesce-default': lambda: Coalesce(c, default=RESCUED),
+                       'coalesce-alt': lambda: Coalesce(c, Val(RESCUED)), 'and-not': lambda: And(Not(c), Val(RESCUED)),
+                       'coalesce-skipexc': lambda: Coalesce(c, default=RESCUED, skip_exc=ValueError)}[r['rec']]()
+    steps = [OkStep(i) for i in range(r['pre'])] + [Probe(77, 'list'), b.it] + [OkStep(10 + i) for i in range(r['mid'])] + \
+        [b.consuming] + [OkStep(30 + i) for i in range(r['post'])]
+    if mode in ('after', 'recovered'):
         steps.append('missing_after' if r['fail'] in ('path', 'glomerror') else T['nope_after'])
-    chain = tuple(steps) if r['chain'] == 'tuple' else Pipe(*steps)
-    w = r['wrap']
-    full = {'none': lambda: chain, 'spec': lambda: Spec(chain), 'auto': lambda: Auto(chain),
-            'coalesce': lambda: Coalesce(chain, 'missing_alt'), 'dict': lambda: {'k': chain},
-            'nested-chain': lambda: (OkStep(40), chain)}[w]()
-    return full, chain, steps, it, sub
+    b.steps = steps
+    b.chain = tuple(steps) if r['chain'] == 'tuple' else Pipe(*steps)
+    chain = b.chain
+    b.outer_step = OkStep(40)
+    b.full = {'none': lambda: chain, 'spec': lambda: Spec(chain), 'auto': lambda: Auto(chain),
+              'coalesce': lambda: Coalesce(chain, 'missing_alt'), 'dict': lambda: {'k': chain},
+              'nested-chain': lambda: (b.outer_step, chain)}[r['wrap']]()
+    # the levels above the chain, in order
+    b.above = {'none': [], 'nested-chain': [b.full, b.outer_step]}.get(r['wrap'], [b.full])
+    return b
+
+
+def parse_trace(text, where):
+    lines = text.split('\n')
+    if lines[0] != 'error raised while processing, details below.' or lines[1] != ' Target-spec trace (most recent last):':
+        raise Mismatch('header', '%s: message starts with %r' % (where, lines[:2]))
+    parsed = []
+    for ln in lines[2:]:
+        p_ = parse_line(ln)
+        if p_ is None:
+            break
+        parsed.append(p_)
+    one_line = check_markers(lines[2:], where, text)
+    return lines, parsed, lines[2 + len(parsed):], one_line
+
+
+def locator(parsed, where, show):
+    spec_lines = [(i, p_[3]) for i, p_ in enumerate(parsed) if p_[2] == 'Spec']
+
+    def at(spec_obj, must=True):
+        full_ = ADDR.sub('', fmtval(spec_obj, 0))
+        hits = [i for i, shown in spec_lines if shown_matches(ADDR.sub('', shown), full_)]
+        if len(hits) > 1:
+            raise Mismatch('lazy-duplicate-line', '%s: the spec %s is listed %d times:\n%s' % (where, full_[:60], len(hits), show))
+        if not hits and must:
+            raise Mismatch('path-spec-missing', '%s: the spec %s of the failing path is not listed:\n%s' % (where, full_[:80], show))
+        return hits[0] if hits else None
+    return spec_lines, at
+
+
+def check_exact_specs(parsed, expected, where, show, what):
+    """statement: the trace 'lists in evaluation order the spec at every level of nesting from the root spec down to the
+    innermost spec that failed' - each level once (+ the completed steps of a chain before its failing step), nothing else"""
+    got = [ADDR.sub('', p_[3]) for p_ in parsed if p_[2] == 'Spec']
+    want = [ADDR.sub('', fmtval(x, 0)) for x in expected]
+    if len(got) != len(want) or not all(shown_matches(g, w) for g, w in zip(got, want)):
+        kind = 'lazy-duplicate-line' if len(got) > len(set(got)) else 'stale-spec-line' if len(got) > len(want) else 'path-spec-missing'
+        raise Mismatch(kind, '%s: %s: the Spec lines must be exactly\n  %s\nthey are\n  %s\n%s'
+                       % (where, what, '\n  '.join(w[:100] for w in want), '\n  '.join(got), show))
+
+
+def check_plain_levels(parsed, idxs, where, show, what):
+    """levels that are no branch points (a single child failed, and it is the last one evaluated) are drawn in line:
+    same depth, none of them marked '+' """
+    depths = set(parsed[i][0] for i in idxs)
+    if len(depths) > 1 or any(parsed[i][1] == '+' for i in idxs):
+        raise Mismatch('plain-spec-drawn-as-branch', '%s: %s: nothing was attempted twice on these levels, but they are drawn as '
+                       'branching specs / at different depths:\n%s' % (where, what, show))
+
+
+def check_alternatives(parsed, at, coal, alts, wrapped, where, show):
+    """statement: 'For branching specs every attempted branch and the error that ended it appear'; docs/debugging.rst: '+'
+    starts the branching spec, every branch is drawn one level deeper, opened by a backslash, its error follows"""
+    i_c = at(coal)
+    dc = parsed[i_c][0]
+    if parsed[i_c][1] != '+':
+        raise Mismatch('branch-missing', '%s: every alternative of %s failed but it is not marked as a branching spec (+):\n%s'
+                       % (where, fmtval(coal, 0)[:60], show))
+    idx = [at(a) for a in alts]
+    if idx != sorted(idx) or idx[0] < i_c:
+        raise Mismatch('branch-order', '%s: the alternatives of %s are not listed below it in evaluation order:\n%s'
+                       % (where, fmtval(coal, 0)[:60], show))
+    end = len(parsed)
+    for j in range(i_c + 1, len(parsed)):
+        if parsed[j][0] <= dc:
+            end = j
+            break
+    for n_, a in enumerate(alts):
+        # (check_markers has established that an 'X' on a line in this position closes a branch of that one line)
+        if parsed[idx[n_]][0] != dc + 1 or parsed[idx[n_]][1] not in '\\X':
+            raise Mismatch('branch-missing', '%s: the attempted alternative %r is not drawn as a branch (one level deeper, '
+                           'opened by a backslash):\n%s' % (where, a, show))
+        block = parsed[idx[n_] + 1:(idx[n_ + 1] if n_ + 1 < len(alts) else end)]
+        if a.raised is None:
+            raise HarnessBug('alternative %r did not fail' % (a,))
+        if a.inner() is not None and not any(p_[2] == 'Spec' and p_[0] == dc + 1 and p_[3] == fmtval(a.inner(), 0) for p_ in block):
+            raise Mismatch('branch-inner-order', '%s: inside the alternative %r the level %r is not listed:\n%s' % (where, a, a.inner(), show))
+        if a.raised is not wrapped:
+            want = exc_line(a.raised)
+            if not any(p_[2] == 'error' and p_[0] == dc + 1 and p_[3] == want for p_ in block):
+                raise Mismatch('branch-error-missing', '%s: the error that ended the alternative %r (%s) is not shown in its branch:\n%s'
+                               % (where, a, want[:100], show))
+
+
+def check_final_error(tail, wrapped, where, show):
+    want = ADDR.sub('', exc_line(wrapped)).split('\n')
+    if not tail or ADDR.sub('', '\n'.join(tail)).rstrip('\n').split('\n')[-len(want):] != want:
+        raise Mismatch('final-line', '%s: the message does not end with the original error %s:\n%s' % (where, exc_line(wrapped)[:80], show))
 
 
 def check_lazy(recipe, ctx):
-    full, chain, steps, it, sub = build_lazy(recipe)
+    b = build_lazy(recipe)
+    full, chain, steps, it, sub = b.full, b.chain, b.steps, b.it, b.sub
+    mode = recipe.get('mode', 'lazy')
     target = Named('root-target')
     where = 'spec=%s' % ADDR.sub('', repr(full))[:300]
     try:
@@ -781,79 +1008,105 @@ def check_lazy(recipe, ctx):
         text = str(err)
     except Exception as e:
         raise Mismatch('str-raises', '%s: str(exc) raised %s: %s' % (where, type(e).__name__, e))
-    lines = text.split('\n')
     show = text
-    if lines[0] != 'error raised while processing, details below.' or lines[1] != ' Target-spec trace (most recent last):':
-        raise Mismatch('header', '%s: message starts with %r' % (where, lines[:2]))
-    parsed = []
-    for ln in lines[2:]:
-        p_ = parse_line(ln)
-        if p_ is None:
-            break
-        parsed.append(p_)
-    tail = lines[2 + len(parsed):]
+    lines, parsed, tail, one_line = parse_trace(text, where)
+    if one_line:
+        ctx.label('one-line-closed-branch')
     if not parsed or parsed[0][2] != 'Target' or parsed[0][3] != 'root-target':
         raise Mismatch('root-target', '%s: first trace entry is not the root target:\n%s' % (where, show))
-    spec_lines = [(i, p_[3]) for i, p_ in enumerate(parsed) if p_[2] == 'Spec']
-
-    def at(spec_obj, must=True):
-        full_ = fmtval(spec_obj, 0)
-        hits = [i for i, shown in spec_lines if shown_matches(shown, full_)]
-        if len(hits) > 1:
-            raise Mismatch('lazy-duplicate-line', '%s: the spec %s is listed %d times:\n%s' % (where, full_[:60], len(hits), show))
-        if not hits and must:
-            raise Mismatch('path-spec-missing', '%s: the spec %s of the failing path is not listed:\n%s' % (where, full_[:80], show))
-        return hits[0] if hits else None
+    spec_lines, at = locator(parsed, where, show)
+    inner = inner_specs(sub, b.alts)
     n_it = steps.index(it)
     n_cons = n_it + recipe['mid'] + 1
-    if recipe.get('mode') == 'after':
-        order = [at(chain)] + [at(x) for x in steps]
-        if recipe['wrap'] not in ('none', 'nested-chain'):
-            order.insert(0, at(full))
+    shape = (recipe.get('sub') or ['plain'])[0]
+    if mode in ('after', 'recovered'):
+        order = [at(x) for x in b.above] + [at(chain)] + [at(x) for x in steps]
         if order != sorted(order):
             raise Mismatch('lazy-order', '%s: the steps of the chain are not listed in order:\n%s' % (where, show))
-        if at(sub, must=False) is not None:
-            raise Mismatch('stale-spec-line', '%s: the sub-spec of the Iter completed for every item (while the consumer ran) but is '
-                           'listed among the steps of the chain:\n%s' % (where, show))
+        for x in inner:
+            if at(x, must=False) is not None:
+                raise Mismatch('stale-spec-line', '%s: the sub-spec of the Iter %s but is listed among the steps of the chain:\n%s'
+                               % (where, 'completed for every item (while the consumer ran)' if mode == 'after' else
+                                  'failed while the consumer ran, the consuming step recovered, and the error comes from a later step', show))
         above = [p_[3] for p_ in parsed[:order[-1]] if p_[2] == 'Target']
-        received = fmtval(steps[n_cons].out, 0)       # ([] for filter: the items are falsy)
+        received = fmtval(b.cons.out if mode == 'after' else RESCUED, 0)       # ([] for filter: the items are falsy)
         if not above or above[-1] != received:
             raise Mismatch('innermost-target', '%s: the failing step received %s but the target shown above it is %r:\n%s'
                            % (where, received, above[-1] if above else None, show))
-        # (+ the second alternative of the Coalesce wrapper / the outer chain and its first step)
-        if len(spec_lines) != len(order) + {'coalesce': 1, 'nested-chain': 2}.get(recipe['wrap'], 0):
-            raise Mismatch('stale-spec-line', '%s: %d Spec lines for %d specs on the failing path:\n%s' % (where, len(spec_lines), len(order), show))
-        ctx.label('fails-after-consumer')
+        # the whole chain completed step by step up to its last one: a linear chain, every level listed once
+        # (+ the second alternative of the Coalesce wrapper, which is tried after the chain failed)
+        check_exact_specs(parsed, b.above + [chain] + steps + (['missing_alt'] if recipe['wrap'] == 'coalesce' else []), where, show,
+                          'the chain failed in its last step, every earlier step completed')
+        check_plain_levels(parsed, [at(chain)] + [at(x) for x in steps], where, show, 'the chain and its steps')
+        if mode == 'recovered':
+            swallowed = [a.raised for a in (b.alts or [sub])]
+            if any(s_ is None for s_ in swallowed):
+                raise HarnessBug('the sub-spec did not fail')
+            for s_ in swallowed:
+                if any(p_[2] == 'error' and p_[3] == exc_line(s_) for p_ in parsed):
+                    raise Mismatch('stale-spec-line', '%s: the error %s was recovered from by %r; it has no part in the error of the '
+                                   'later step but is shown:\n%s' % (where, exc_line(s_)[:80], b.consuming, show))
+            check_final_error(tail, wrapped, where, show)
+            ctx.label('recovered-lazy-failure', 'rec-' + recipe['rec'])
+        else:
+            ctx.label('fails-after-consumer')
         ctx.label('lazy-' + recipe['how'])
+        if recipe['mid']:
+            ctx.label('steps-between')
         ctx.nontrivial(True)
         ctx.outcome([ADDR.sub('', repr(full))[:140], type(wrapped).__name__])
         return
-    evaluated = steps[:n_cons + 1]
-    never = steps[n_cons + 1:]
-    order_a = [at(chain)] + [at(x) for x in steps[:n_it + 1]]
-    if recipe['wrap'] != 'none' and recipe['wrap'] != 'nested-chain':
-        order_a.insert(0, at(full))
-    inner = [x for x in ([sub] if recipe['fail'] in ('glomerror', 'valueerror') else [sub, 'missing_lazy' if recipe['fail'] == 'path' else T['nope_lazy']])]
-    order_a += [at(x) for x in inner]
-    if order_a != sorted(order_a):
-        raise Mismatch('lazy-order', '%s: root -> chain -> steps -> Iter -> sub-spec are not listed in this order:\n%s' % (where, show))
-    order_b = [at(it)] + [at(x) for x in steps[n_it + 1:n_cons + 1]]
-    if order_b != sorted(order_b):
-        raise Mismatch('lazy-order', '%s: Iter -> later steps -> consumer are not listed in this order:\n%s' % (where, show))
-    for x in never:
-        if at(x, must=False) is not None:
-            raise Mismatch('stale-spec-line', '%s: the step %r after the failing consumer was never evaluated but is listed:\n%s' % (where, x, show))
+    caught_by_wrapper = recipe['wrap'] == 'coalesce' and sub_error_is_glomerror(recipe)
+    if b.eager:
+        # the Iter step itself raised: the steps after it never ran, nothing is lazy about this failure
+        upto = b.above + [chain] + steps[:n_it + 1]
+        expected = upto + inner + (['missing_alt'] if caught_by_wrapper else [])
+        check_exact_specs(parsed, expected, where, show, 'the Iter step raised while it was evaluated (windowed() pulled the failing item)')
+        # (when an item before the failing one completed inside the Iter's evaluation, glom draws the Iter like a lazily
+        # failing one, as a branching spec with the single branch of the failing item; the statement does not speak
+        # about that mark, the lines are the same: not asserted for the Iter and below in that case)
+        below_too = recipe['failat'] == 0
+        check_plain_levels(parsed, [at(x) for x in [chain] + steps[:n_it + (1 if below_too else 0)] + (inner if b.alts is None and below_too else [])],
+                           where, show, 'the chain and its steps down to the Iter' + (' and the levels below' if below_too else ''))
+        ctx.label('windowed-eager')
+        if not below_too:
+            ctx.label('windowed-eager-after-completed-item')
+    else:
+        evaluated = steps[:n_cons + 1]
+        never = steps[n_cons + 1:]
+        order_a = [at(x) for x in b.above] + [at(chain)] + [at(x) for x in steps[:n_it + 1]] + [at(x) for x in inner]
+        if order_a != sorted(order_a):
+            raise Mismatch('lazy-order', '%s: root -> chain -> steps -> Iter -> sub-spec are not listed in this order:\n%s' % (where, show))
+        order_b = [at(it)] + [at(x) for x in steps[n_it + 1:n_cons + 1]]
+        if order_b != sorted(order_b):
+            raise Mismatch('lazy-order', '%s: Iter -> later steps -> consumer are not listed in this order:\n%s' % (where, show))
+        for x in never:
+            if at(x, must=False) is not None:
+                raise Mismatch('stale-spec-line', '%s: the step %r after the failing consumer was never evaluated but is listed:\n%s' % (where, x, show))
+        # every level is listed once: above the chain, the chain, the evaluated steps, the levels from the sub-spec down
+        # (+ the second alternative of the Coalesce wrapper, tried after the chain failed with a GlomError)
+        # (Iter().filter(sub) evaluates sub through Check(sub, default=SKIP): that level may be listed above the sub-spec)
+        via = at(Check(sub, default=glom.SKIP), must=False) if recipe['how'] == 'filter' else None
+        if via is not None and not order_a[-len(inner) - 1] < via < order_a[-len(inner)]:
+            raise Mismatch('lazy-order', '%s: the Check through which filter() evaluates the sub-spec is not listed between the Iter and the sub-spec:\n%s' % (where, show))
+        n_expected = len(b.above) + 1 + len(evaluated) + len(inner) + (1 if caught_by_wrapper else 0) + (1 if via is not None else 0)
+        if len(spec_lines) != n_expected:
+            raise Mismatch('lazy-duplicate-line' if len(spec_lines) > n_expected else 'path-spec-missing',
+                           '%s: %d Spec lines for %d evaluated specs:\n%s' % (where, len(spec_lines), n_expected, show))
     # the innermost failing spec is shown with the item it received
-    idx = at(inner[-1])
+    innermost = sub if b.alts is not None and wrapped is not b.alts[-1].raised else inner[-1]
+    idx = at(innermost)
     item = 'item77_' + 'ab'[recipe['failat']]
     above = [p_[3] for p_ in parsed[:idx] if p_[2] == 'Target']
     if not above or above[-1] != item:
         raise Mismatch('innermost-target', '%s: the failing sub-spec received %s but the target shown above it is %r:\n%s'
                        % (where, item, above[-1] if above else None, show))
-    if not tail or ADDR.sub('', '\n'.join(tail)).rstrip('\n').split('\n')[-len(exc_line(wrapped).split('\n')):] != ADDR.sub('', exc_line(wrapped)).split('\n'):
-        raise Mismatch('final-line', '%s: the message does not end with the original error %s:\n%s' % (where, exc_line(wrapped)[:80], show))
-    if len(spec_lines) > len(evaluated) + 6:
-        raise Mismatch('lazy-duplicate-line', '%s: %d Spec lines for %d evaluated specs:\n%s' % (where, len(spec_lines), len(evaluated) + 3, show))
+    if b.alts is not None:
+        check_alternatives(parsed, at, sub, b.alts, wrapped, where, show)
+        ctx.label('branching-sub')
+        if not b.eager:
+            ctx.label('lazy-branch-ends-in-nested-branch')
+    check_final_error(tail, wrapped, where, show)
     ctx.label('lazy-' + recipe['how'])
     ctx.label('wrap-' + recipe['wrap'])
     if recipe['mid']:
@@ -864,7 +1117,8 @@ def check_lazy(recipe, ctx):
 
 
 # ---------------------------------------------------------------------------
-# an Iter whose stream is consumed by the ENCLOSING spec (not by a later chain step): Invoke / Call arguments, Fold
+# an Iter whose stream is consumed by the ENCLOSING spec (not by a later chain step): Invoke / Call arguments, Fold;
+# First(key), which evaluates its key spec on the items of the stream; a plain dict around Iter(sub).windowed(n)
 
 class _ConsumeAll(object):
     """list() with a short, address-free repr (truncated trace lines are compared by prefix)"""
@@ -878,22 +1132,45 @@ class _ConsumeAll(object):
 
 
 consume_all = _ConsumeAll()
+EAGER_ENCLOSURES = ('first', 'iter-first', 'dict-windowed')
 
 
 def gen_enclosed(draw):
     S_ = st.sampled_from
-    return {'pre': draw(S_([0, 1, 2])), 'fail': draw(S_(['path', 'tstep', 'glomerror', 'valueerror'])), 'failat': draw(S_([0, 1])),
-            'how': draw(S_(['iter', 'iter', 'map'])), 'enclose': draw(S_(['invoke', 'call', 'fold', 'invoke-in-dict'])),
-            'post': draw(S_([0, 1]))}
+    r = {'pre': draw(S_([0, 1, 2])), 'fail': draw(S_(['path', 'tstep', 'glomerror', 'valueerror'])), 'failat': draw(S_([0, 1])),
+         'how': draw(S_(['iter', 'iter', 'map'])),
+         'enclose': draw(S_(['invoke', 'call', 'fold', 'invoke-in-dict', 'first', 'first', 'iter-first', 'dict-windowed', 'dict-windowed'])),
+         'post': draw(S_([0, 1])), 'sub': gen_subshape(draw)}
+    if r['enclose'] in ('first', 'iter-first'):
+        r['keychain'] = draw(S_([0, 1]))        # the key is the failing spec itself / a chain that ends in it
+    return r
 
 
 def check_enclosed(recipe, ctx):
     from glom import Fold
-    sub = FailAt(recipe['fail'], recipe['failat'])
-    it = Iter(sub) if recipe['how'] == 'iter' else Iter().map(sub)
-    enc = {'invoke': lambda: Invoke(consume_all).specs(it), 'call': lambda: Call(consume_all, args=(it,)),
-           'fold': lambda: Fold(it, list, op=lambda acc, v: acc + [v]),
-           'invoke-in-dict': lambda: {'k': Invoke(consume_all).specs(it)}}[recipe['enclose']]()
+    from glom.streaming import First
+    sub, alts = build_sub(recipe, recipe['failat'])
+    kind = recipe['enclose']
+    inner = inner_specs(sub, alts)
+    if kind in ('first', 'iter-first'):
+        # First(key): "key ... can also be a glomspec" (docstring of Iter.first); the items before the failing one
+        # give a falsy key (the item itself, an empty Named) and are passed over
+        it = None
+        key_step = OkStep(50)
+        key = (key_step, sub) if recipe.get('keychain') else sub
+        enc = First(key) if kind == 'first' else Iter().first(key)
+        below = ([enc] if kind == 'first' else [enc, enc[0], enc[1]]) + ([key, key_step] if recipe.get('keychain') else [])
+    elif kind == 'dict-windowed':
+        # windowed(n) pulls n - 1 items while the Iter is evaluated: the failing item is among them
+        it = (Iter(sub) if recipe['how'] == 'iter' else Iter().map(sub)).windowed(recipe['failat'] + 2)
+        enc = {'k': it}
+        below = [enc, it]
+    else:
+        it = Iter(sub) if recipe['how'] == 'iter' else Iter().map(sub)
+        enc = {'invoke': lambda: Invoke(consume_all).specs(it), 'call': lambda: Call(consume_all, args=(it,)),
+               'fold': lambda: Fold(it, list, op=lambda acc, v: acc + [v]),
+               'invoke-in-dict': lambda: {'k': Invoke(consume_all).specs(it)}}[kind]()
+        below = [enc] + ([enc['k']] if kind == 'invoke-in-dict' else []) + [it]
     steps = [OkStep(i) for i in range(recipe['pre'])] + [Probe(77, 'list'), enc] + [OkStep(30 + i) for i in range(recipe['post'])]
     full = tuple(steps)
     target = Named('root-target')
@@ -910,28 +1187,11 @@ def check_enclosed(recipe, ctx):
         return
     wrapped = err.__dict__.get('_GlomError__wrapped', err)
     text = str(err)
-    lines = text.split('\n')
-    parsed = []
-    for ln in lines[2:]:
-        p_ = parse_line(ln)
-        if p_ is None:
-            break
-        parsed.append(p_)
-    spec_lines = [(i, p_[3]) for i, p_ in enumerate(parsed) if p_[2] == 'Spec']
-
-    def at(spec_obj):
-        full_ = ADDR.sub('', fmtval(spec_obj, 0))
-        hits = [i for i, shown in spec_lines if shown_matches(ADDR.sub('', shown), full_)]
-        if len(hits) > 1:
-            raise Mismatch('lazy-duplicate-line', '%s: the spec %s is listed %d times:\n%s' % (where, full_[:60], len(hits), text))
-        if not hits:
-            raise Mismatch('path-spec-missing', '%s: the spec %s of the failing path is not listed:\n%s' % (where, full_[:80], text))
-        return hits[0]
-    inner = [sub] if recipe['fail'] in ('glomerror', 'valueerror') else [sub, 'missing_lazy' if recipe['fail'] == 'path' else T['nope_lazy']]
-    path_specs = [full] + steps[:recipe['pre'] + 2]
-    if recipe['enclose'] == 'invoke-in-dict':
-        path_specs.append(enc['k'])
-    path_specs += [it] + inner
+    lines, parsed, tail, one_line = parse_trace(text, where)
+    if one_line:
+        ctx.label('one-line-closed-branch')
+    spec_lines, at = locator(parsed, where, text)
+    path_specs = [full] + steps[:recipe['pre'] + 1] + below + inner
     order = [at(x) for x in path_specs]
     if order != sorted(order):
         raise Mismatch('lazy-order', '%s: chain -> steps -> enclosing spec -> Iter -> sub-spec are not listed in this order:\n%s' % (where, text))
@@ -939,16 +1199,30 @@ def check_enclosed(recipe, ctx):
         full_ = fmtval(x, 0)
         if any(shown_matches(shown, full_) for _, shown in spec_lines):
             raise Mismatch('stale-spec-line', '%s: the step %r after the failing one was never evaluated but is listed:\n%s' % (where, x, text))
+    if kind in EAGER_ENCLOSURES:
+        # nothing here is raised lazily: the key runs inside First, windowed() pulls the item inside the Iter
+        check_exact_specs(parsed, path_specs, where, text, 'every level from the chain down to the failing spec was being evaluated when it raised')
+        # (an Iter in whose evaluation an item completed before the failing one is drawn like a lazily failing one, with the
+        # failing item as its single branch: see check_lazy; the levels ABOVE the Iter are plain in every case)
+        below_too = not (kind == 'dict-windowed' and recipe['failat'] > 0)
+        check_plain_levels(parsed, [at(x) for x in [full] + steps[:recipe['pre'] + 1] + (below if below_too else below[:-1]) +
+                                    (inner if alts is None and below_too else [])], where, text,
+                           'the chain, its steps and the enclosing spec' + (' and the levels below' if below_too else ''))
+    innermost = sub if alts is not None and wrapped is not alts[-1].raised else inner[-1]
     item = 'item77_' + 'ab'[recipe['failat']]
-    above = [p_[3] for p_ in parsed[:order[-1]] if p_[2] == 'Target']
+    above = [p_[3] for p_ in parsed[:at(innermost)] if p_[2] == 'Target']
     if not above or above[-1] != item:
         raise Mismatch('innermost-target', '%s: the failing sub-spec received %s but the target shown above it is %r:\n%s'
                        % (where, item, above[-1] if above else None, text))
-    tail = lines[2 + len(parsed):]
-    want = ADDR.sub('', exc_line(wrapped)).split('\n')
-    if ADDR.sub('', '\n'.join(tail)).rstrip('\n').split('\n')[-len(want):] != want:
-        raise Mismatch('final-line', '%s: the message does not end with the original error:\n%s' % (where, text))
-    ctx.label('enclose-' + recipe['enclose'])
+    if alts is not None:
+        check_alternatives(parsed, at, sub, alts, wrapped, where, text)
+        ctx.label('branching-sub')
+    check_final_error(tail, wrapped, where, text)
+    ctx.label('enclose-' + kind)
+    if kind in ('first', 'iter-first'):
+        ctx.label('first-key-fails')
+        if recipe.get('keychain') or alts is not None:
+            ctx.label('first-key-composite')
     ctx.nontrivial(True)
     ctx.outcome([ADDR.sub('', repr(full))[:140], type(wrapped).__name__])
 
@@ -1030,8 +1304,10 @@ CLASSIFIERS = {'F36-call-args-lazy': is_call_args_lazy}
 SUBS = [
     Sub('trace', check, gen=gen, quick=3000, thorough=10000,
         floors={'branch-point': 0.1, 'recovered-branch': 0.1, 'depth-3': 0.05, 'linear-exact': 0.1, 'target-contains-itself': 0.01, 'exception-with-own-str': 0.03, 'fails-in-argument-position': 0.02}),
-    Sub('lazy', check_lazy, gen=gen_lazy, quick=800, thorough=3000, floors={'steps-between': 0.2, 'lazy-map': 0.05, 'fails-after-consumer': 0.15}),
+    Sub('lazy', check_lazy, gen=gen_lazy, quick=1200, thorough=3000, floors={'steps-between': 0.2, 'lazy-map': 0.05, 'fails-after-consumer': 0.12, 'recovered-lazy-failure': 0.12, 'windowed-eager': 0.07,
+                'lazy-map-windowed': 0.04, 'branching-sub': 0.09, 'lazy-branch-ends-in-nested-branch': 0.06, 'one-line-closed-branch': 0.01}),
     Sub('matchalts', check_matchalts, gen=gen_matchalts, quick=300, thorough=1000),
-    Sub('enclosed', check_enclosed, gen=gen_enclosed, quick=400, thorough=1500),
+    Sub('enclosed', check_enclosed, gen=gen_enclosed, quick=600, thorough=1500,
+        floors={'first-key-fails': 0.2, 'first-key-composite': 0.12, 'enclose-dict-windowed': 0.1, 'branching-sub': 0.15}),
     fuzzrun.fuzz_sub('fuzz-trace', 'hyp:c05:trace', runs=30000, campaigns=4, replay_sub='trace'),
 ]
